@@ -323,6 +323,31 @@ def main():
                 continue
             if r["status"] != "killed":
                 print("SURVIVED" if r["status"] == "survived" else r["status"].upper(), r["id"], f"{r['file']}:{r['line']}", r["op"], "|", r["old"].strip()[:110])
+    elif a[0] == "triage-md":
+        rs0 = [json.loads(l) for l in open(RES)]
+        last = {}
+        for r in rs0:
+            last[r["id"]] = r
+        tri = json.load(open(os.path.join(VERIF, "mutants", "triage.json")))
+        first_surv = {r["id"] for r in rs0 if r.get("status") == "survived" and not r.get("recheck")}
+        out = ["# Mutants that pass the repository's tests: survivors of the quick checks, triaged", "",
+               "Generated by `tools/mutants.py triage-md` from `results.jsonl` and `triage.json`.", "",
+               "Classes: **equivalent** - no observable difference in any encoded output or returned value;",
+               "**outside** - observable, but only through an API or an input no listed statement covers;",
+               "**gap-closed** - a generator or oracle gap; closed, the mutant is caught now (see DESIGN 10.9).", ""]
+        out.append("| mutant | site | change | class | reason |")
+        out.append("|---|---|---|---|---|")
+        for mid in sorted(first_surv, key=lambda i: (last[i]["file"], last[i]["line"])):
+            r = last[mid]
+            if r["status"] == "killed":
+                cls, why = "gap-closed", "caught by " + ", ".join(r.get("killed_by", [])) + " after the generators / oracles were extended"
+                if mid in tri:
+                    why = tri[mid][1] + " - " + why
+            else:
+                cls, why = tri.get(mid, ["untriaged", ""])
+            out.append("| %s | %s:%d | %s: `%s` | %s | %s |" % (mid, r["file"].replace("src/", ""), r["line"], r["op"], r["old"].strip().replace("|", "\\|")[:70], cls, why))
+        open(os.path.join(VERIF, "mutants", "TRIAGE.md"), "w").write("\n".join(out) + "\n")
+        print("written", len(first_surv), "rows")
     elif a[0] == "clean":
         for k in os.listdir(SCR) if os.path.isdir(SCR) else []:
             if os.path.isdir(f"{SCR}/{k}/repo"):
